@@ -1180,7 +1180,8 @@ func checkC19(h *History, sc *ScanCtx, g *GroupCtx, r *Report) {
 	for _, e := range g.Events {
 		switch e.API {
 		case sim.AwsTermASG:
-			if inDeletes {
+			// a request to the provider ends at its first failing call; the next terminate call opens a new batch
+			if inDeletes || (len(batch) > 0 && !batch[len(batch)-1].OK()) {
 				batch = nil
 				inDeletes = false
 			}
